@@ -4,7 +4,7 @@ import common
 from common import tlc, tlc_ok, tlc_must_fail, build_driver, run_driver, judge, ToolError, log
 
 TIERS = {
-    "quick":    dict(mc="MC_Slice_quick.cfg", small=5, maxlen=4, rand=3000),
+    "quick":    dict(mc="MC_Slice_quick.cfg", small=5, maxlen=4, rand=15000),
     "thorough": dict(mc="MC_Slice_thorough.cfg", small=9, maxlen=6, rand=60000),
 }
 
